@@ -141,3 +141,122 @@ def run(chk, F, tier):
     chk.floor("legend registrations", n, 1)
     chk.explanation = ("Evaluates the match tables and vec! literals from MIR and compares them entry by entry; "
                        "exhaustive over all 24 token kinds and 10 modifiers.")
+
+    # ---- R26e: token lengths are counted in the same unit as token columns ---------------------------------------------
+    import dataflow as _d
+    chk.rule("R26e", "in SemanticBuilder::push_data every `col`/`length` of a token record comes from LuaDocument::get_line_col columns "
+                     "(or the multi-line filler constants), never from a byte length")
+    SB = P + "SemanticBuilder"
+    pd = F.bodies.get(SB + "::push_data")
+    if pd is None:
+        raise RuleBroken("SemanticBuilder::push_data not found")
+
+    def value_sources(b, op):
+        out, seen = set(), set()
+        l = _d.operand_local(op)
+        if l is None:
+            return {"const"}
+        todo = [l]
+        while todo:
+            x = todo.pop()
+            if x in seen:
+                continue
+            seen.add(x)
+            for r in _d.roots(b, x):
+                if r[0] == "call":
+                    c = b.blocks[r[1]][2][1]
+                    n = c.get("r") or c.get("f") or ""
+                    short = n.split("::")[-1]
+                    if short in ("saturating_sub", "sub", "min", "max", "into", "from", "branch") and c["a"]:
+                        for a in c["a"]:
+                            la = _d.operand_local(a)
+                            if la is not None:
+                                todo.append(la)
+                        continue
+                    out.add(short)
+                elif r[0] == "place":
+                    todo.append(r[1])
+                elif r[0] == "other":
+                    rv = b.blocks[r[1]][1][r[2]][2]
+                    if rv[0] in ("cast", "bin"):
+                        for y in rv[1:]:
+                            if isinstance(y, list) and y and y[0] in ("c", "m"):
+                                todo.append(y[1][0])
+                    else:
+                        out.add("rvalue:" + str(rv[0]))
+                elif r[0] == "const":
+                    out.add("const")
+                elif r[0] == "arg":
+                    out.add("arg#%d" % r[1])
+                else:
+                    out.add(str(r[0]))
+        return out
+
+    nrec = 0
+    for blk in pd.blocks:
+        for st in blk[1]:
+            if st[0] == "a" and st[2][0] == "agg" and st[2][1] == "adt" and (st[2][2] or "").endswith("BasicSemanticTokenData"):
+                nrec += 1
+                ops = st[2][4]
+                # fields: line, col, length, typ, modifiers
+                for fi, fname in ((1, "col"), (2, "length")):
+                    src = value_sources(pd, ops[fi])
+                    chk.check(src <= {"get_line_col", "const"}, "R26e", "push_data:record#%d.%s" % (nrec, fname),
+                              "push_data computes a token's %s from %s: columns are character counts (get_line_col), so a byte length makes "
+                              "every token containing a non-ASCII character too long -- it overlaps its successors or leaves the line"
+                              % (fname, sorted(src)), pd.loc(st[3] if len(st) > 3 else None), witness={"sources": sorted(src)},
+                              sample={"rule": "R26e", "record": nrec, "field": fname, "verdict": "from get_line_col / constant"})
+    chk.floor("token records built by push_data", nrec, 4)
+
+    # ---- R26f: emitted tokens do not overlap --------------------------------------------------------------------------------
+    chk.rule("R26f", "SemanticBuilder enforces non-overlap: build() compares a token's column with the previous token's end (col + length), "
+                     "or push_data rejects ranges that overlap a stored range")
+    bd = F.bodies.get(SB + "::build")
+    if bd is None:
+        raise RuleBroken("SemanticBuilder::build not found")
+    # comparisons in build (and its closures) whose operands derive from the `length` field
+    reads_len_in_cmp = False
+    bodies = [bd] + [x for k, x in F.bodies.items() if k.startswith(bd.id + "::{closure")]
+    for b in bodies:
+        len_locals = set()
+        for blk in b.blocks:
+            for st in blk[1]:
+                if st[0] == "a" and len(st[1]) == 1:
+                    rv = st[2]
+                    srcp = rv[1][1] if rv[0] == "use" and rv[1][0] in ("c", "m") else (rv[2] if rv[0] == "ref" else None)
+                    if srcp and any(isinstance(e, list) and e[0] == "f" and e[2] == "length" for e in srcp[1:]):
+                        len_locals.add(st[1][0])
+        changed = True
+        while changed:
+            changed = False
+            for blk in b.blocks:
+                for st in blk[1]:
+                    if st[0] == "a" and len(st[1]) == 1 and st[1][0] not in len_locals:
+                        for y in st[2][1:]:
+                            if isinstance(y, list) and y and y[0] in ("c", "m") and y[1][0] in len_locals:
+                                len_locals.add(st[1][0])
+                                changed = True
+                t = blk[2]
+                if t[0] == "call" and len(t[1]["d"]) == 1 and t[1]["d"][0] not in len_locals and \
+                        any(a[0] in ("c", "m") and a[1][0] in len_locals for a in t[1]["a"]) and \
+                        (t[1].get("r") or t[1].get("f") or "").split("::")[-1] in ("add", "saturating_add", "checked_add", "wrapping_add"):
+                    len_locals.add(t[1]["d"][0])
+                    changed = True
+        for blk in b.blocks:
+            for st in blk[1]:
+                if st[0] == "a" and st[2][0] == "bin" and st[2][1] in ("Lt", "Le", "Gt", "Ge"):
+                    if any(o[0] in ("c", "m") and o[1][0] in len_locals for o in st[2][2:4]):
+                        reads_len_in_cmp = True
+            t = blk[2]
+            if t[0] == "call" and (t[1].get("r") or t[1].get("f") or "").split("::")[-1] in ("lt", "le", "gt", "ge", "cmp", "partial_cmp") and \
+                    any(a[0] in ("c", "m") and a[1][0] in len_locals for a in t[1]["a"]):
+                reads_len_in_cmp = True
+    range_overlap_test = any((c.get("r") or c.get("f") or "").endswith(("TextRange::intersect", "TextRange::contains_range", "TextRange::contains"))
+                             for _, c in pd.calls())
+    chk.check(reads_len_in_cmp or range_overlap_test, "R26f", "non-overlap",
+              "SemanticBuilder removes duplicates by start offset only: build() never compares a token's column with the end (col + length) of "
+              "the token before it and push_data never tests a range against stored ranges, so a token nested in or straddling an earlier "
+              "one is emitted and the decoded stream overlaps", bd.loc(),
+              witness={"failing_inputs": ["local a = {}\\n---@cast a.b.c string  (token a.b.c plus tokens for b and c)",
+                                          "local s = \"local x = 1\" ---@language lua  (whole string token plus injected tokens)"]},
+              sample={"rule": "R26f", "verdict": "overlap filtered"})
